@@ -10,7 +10,7 @@ extern "C" { bool xc_ReverseCompareNodeMinPingTime(const xCand*, const xCand*); 
 #define DIS(...) do { rv::g_stats.disagreements++; if (rv::g_stats.disagreements <= 8) { std::printf("DISAGREE " __VA_ARGS__); std::printf("\n"); } } while (0)
 static NodeEvictionCandidate rnd(rv::Rng& r, int id)
 {
-    NodeEvictionCandidate c{}; c.id = id; c.m_connected = NodeClock::time_point{std::chrono::seconds{(int64_t)r.below(6)}}; c.m_min_ping_time = std::chrono::microseconds{(int64_t)r.below(6)}; c.m_last_block_time = std::chrono::seconds{(int64_t)r.below(5)};
+    NodeEvictionCandidate c{}; c.id = id; c.m_connected = NodeClock::time_point{std::chrono::seconds{(int64_t)r.below(6)}}; c.m_min_ping_time = r.below(2) ? NodeClock::duration{std::chrono::microseconds{(int64_t)r.below(6)}} : NodeClock::duration{std::chrono::nanoseconds{23456000 + 100 * (int64_t)r.below(9)}};   /* whole microseconds, or values inside one microsecond (the clock ticks in nanoseconds) */ c.m_last_block_time = std::chrono::seconds{(int64_t)r.below(5)};
     c.m_last_tx_time = std::chrono::seconds{(int64_t)r.below(5)}; c.fRelevantServices = r.below(2); c.m_relay_txs = r.below(2); c.fBloomFilter = r.below(2); c.nKeyedNetGroup = r.below(6); c.prefer_evict = r.below(4) == 0; c.m_is_local = r.below(5) == 0;
     static const Network NETS[] = {NET_IPV4, NET_IPV6, NET_ONION, NET_I2P, NET_CJDNS}; c.m_network = NETS[r.below(5)]; c.m_noban = r.below(8) == 0; c.m_conn_type = r.below(8) == 0 ? ConnectionType::OUTBOUND_FULL_RELAY : ConnectionType::INBOUND; return c;
 }
